@@ -133,6 +133,15 @@ class Calculation(UnaryOperation):
                     f"{set(self.columns_required - current.target.columns)}",
                 ),
             )
+        if self.tag in current.target.columns:
+            # The existing operation (a Projection) hides a column with the
+            # same tag as the new one, so the calculation cannot move upstream.
+            return UnaryCommutator(
+                first=None,
+                second=current.operation,
+                done=False,
+                messages=(f"{current.target} already has a column {self.tag}",),
+            )
         # If we commute a calculation before a projection, the
         # projection also needs to include the calculated column.
         return UnaryCommutator(
